@@ -15,7 +15,7 @@ import (
 )
 
 func init() {
-	report.Register("C01", report.Check{Level: "exploration", QuickBudget: 150 * time.Second, ThoroughBudget: 40 * time.Minute, Run: runC01})
+	report.Register("C01", report.Check{Level: "exploration", QuickBudget: 240 * time.Second, ThoroughBudget: 25 * time.Minute, Run: runC01})
 	explore.Register("C01.value", func(p string) explore.Harness {
 		return func(x *explore.X) {
 			found := false
